@@ -340,7 +340,16 @@ class Sockets(pipeline.Stream):
 
     def fatal(self, case, obs):
         st = obs.get("stop", {})
-        return bool(obs.get("stuck_clients")) or st.get("shutdown_returned") is False or st.get("close_returned") is False
+        if bool(obs.get("stuck_clients")) or st.get("shutdown_returned") is False or st.get("close_returned") is False:
+            return True
+        # a connection that is owed a reply and got none (each one costs a client time-out): the scenario is judged, going on
+        # would only wait out more time-outs
+        K = self.K
+        for descs, key in ((case["conns"], "conns"), (case.get("followups", []), "followups")):
+            for d, c in zip(descs, obs.get(key, [])):
+                if c.get("error") and K.materialize(d)["expect"]["kind"] != "none":
+                    return True
+        return False
 
     def oracle(self, case, obs):
         K = self.K
